@@ -25,9 +25,10 @@ func runC10(c *Ctx) {
 	c.Rule("G4 row window: in the function that processes a claimed row, the wait on the row above precedes, and the signal of the own row follows, every access to the shared context arrays at indices that do not depend on the claimed row")
 	c.Rule("G5 lock pairing: every Mutex.Lock is followed by Unlock on all paths (or deferred)")
 	c.Rule("G7 package state: no package-level variable is stored to outside init functions, sync.Once bodies and functions only reachable from them")
+	c.Assume("G8 accepts arg-min/arg-max selection by a message-carried key; this is order independent when the producers' keys are distinct (they are the work indices)")
 	c.Rule("A2c (shared with C11): nothing derived from a pooled object is used, stored or returned after it was put back")
 	c.NotCovered("element-wise disjointness of partitioned writes is checked only as 'the index depends on the work assignment', not proven; freedom from deadlock other than the lost wake-up pattern of G3")
-	c.NotCovered("which error is reported when several frames fail in DecodeFramesParallel (first received wins)")
+	c.Rule("G8 arrival order: where several goroutines send to one channel, the receiving loop keeps from the messages only what does not depend on their order: stores to slots indexed by a value carried in the message, and variables folded with commutative-associative operators (+ * | & ^ min max) or set to constants; first-arrival / last-arrival selection and append are reported")
 	rows, err := loadReview(filepath.Join(c.Verif, "tables", "concurrency.txt"))
 	if err != nil {
 		c.Fail("internal", "tables/concurrency.txt", "", err.Error())
@@ -43,6 +44,7 @@ func runC10(c *Ctx) {
 		g.joins()
 		g.capturedWrites()
 		g.neighbourReads()
+		g.arrivalOrder()
 		g.wakeup()
 		g.lockPairing()
 		g.globals()
